@@ -131,8 +131,9 @@ def run(tier, seed, replay=None):
             w = R.world("line4", seed * 100 + goal * 10 + size % 7)
             try:
                 p = 1      # payload numbers are per world (the spec numbers them 1, 2, ... in sending order)
-                tamper_walk(w, tier if size in (0,) or tier == "thorough" else "quick", rng, "o", goal, size, p)
-                tr = {"events": w.events, "topology": "line4", "seed": seed, "profile": "tamper-walk g%d s%d" % (goal, size)}
+                gone = K.guarded(w, tamper_walk, w, tier if size in (0,) or tier == "thorough" else "quick", rng, "o", goal, size, p)
+                tr = {"events": w.events, "topology": "line4", "seed": seed, "profile": "tamper-walk g%d s%d" % (goal, size),
+                      "aborted": gone}
                 K.check_escapes(ctx, w, tr, "tamper-walk")
                 walks.append(tr)
                 hdr = w.header()
@@ -143,8 +144,9 @@ def run(tier, seed, replay=None):
     for i, (g1, g2) in enumerate([(1, 1), (2, 2)] if tier == "quick" else [(1, 1), (1, 2), (2, 1), (2, 2), (1, 3), (3, 1)]):
         w = R.world("two_origins", seed * 100 + 70 + i)
         try:
-            e2e_walk(w, tier, rng, g1, g2)
-            tr = {"events": w.events, "topology": "two_origins", "seed": seed, "profile": "e2e %d+%d hops" % (g1, g2)}
+            gone = K.guarded(w, e2e_walk, w, tier, rng, g1, g2)
+            tr = {"events": w.events, "topology": "two_origins", "seed": seed, "profile": "e2e %d+%d hops" % (g1, g2),
+                  "aborted": gone}
             K.check_escapes(ctx, w, tr, "e2e")
             e2e.append(tr)
             hdr_e = w.header()
